@@ -691,7 +691,7 @@ def status(pid, tier, replay):
             # ... and every command has more to say than one read of the pipe takes
             for st in s["stmts"]:
                 if not st["phony"]:
-                    st["outp"] = ["mark", "nl", "long", "nl", "mark", "nl"]
+                    st["outp"] = ["mark", "nl", "mid", "nl", "mark", "nl"]
         return s
     real_pipes.n = 0
     h2 = dict(fams=[dict(fam="status", K=2 if tier == "quick" else 12, CH=2 if tier == "quick" else 6, mut=real_pipes)], limit=80 if tier == "quick" else 1200, maxruns=2)
